@@ -20,6 +20,7 @@ type Result struct {
 	BreakOutsideLoop    bool
 	VarargOutsideVararg bool
 	BadAttrib           bool // attribute name other than const/close (§3.3.7)
+	BadAttribIdx        int  // index of the first such attribute name, -1 if none
 }
 
 type syntaxErr struct{}
@@ -37,6 +38,7 @@ type rec struct {
 func Recognise(toks []Token) (r Result) {
 	p := &rec{toks: toks, loop: []int{0}, varf: []bool{true}, ctx: []string{"chunk"}}
 	p.res.ErrIdx = -1
+	p.res.BadAttribIdx = -1
 	defer func() {
 		if x := recover(); x != nil {
 			if _, ok := x.(syntaxErr); !ok {
@@ -239,6 +241,9 @@ func (p *rec) stat() {
 				if p.kind() == "name" {
 					if t := p.toks[p.pos].Text; t != "const" && t != "close" {
 						p.res.BadAttrib = true
+						if p.res.BadAttribIdx < 0 {
+							p.res.BadAttribIdx = p.pos
+						}
 					}
 				}
 				p.expect("name")
